@@ -183,7 +183,12 @@ def _argmax_batch_rule(
     axis_size = operand.shape[bdim]
     operand = batching.bdim_at_front(operand, bdim, axis_size)
 
-    shifted_axes = tuple(int(ax) + 1 for ax in axes)
+    # Axes refer to the unbatched operand; normalise negative ones before the
+    # batch dimension is inserted in front (-1 + 1 would select the batch axis).
+    unbatched_rank = operand.ndim - 1
+    shifted_axes = tuple(
+        (int(ax) + unbatched_rank if int(ax) < 0 else int(ax)) + 1 for ax in axes
+    )
     out = JnpArgmaxPlugin._PRIM.bind(
         operand,
         axes=shifted_axes,
